@@ -34,7 +34,7 @@ func merge(dstDir string, names []string) (string, error) {
 		verifhook.FS("open", fn)
 		f, err := os.Open(fn)
 		if err != nil {
-			return "", nil
+			return "", err
 		}
 		defer f.Close()
 
